@@ -269,8 +269,48 @@ pub fn judge(c: &Case16) -> Vec<(String, String)> {
                 None => return vec![],
             };
             props.insert(prop.clone(), v);
-            // only panics / lookup failures matter here: value fidelity is C06's business
-            through_codecs(class, &props, "lookup").into_iter().filter(|(k, _)| k.contains("panic")).collect()
+            // panics, and lookup failures: a property the database says serializes (plainly or under
+            // another descriptor) must come back from each codec, under the canonical name of the
+            // descriptor it is stored as (Name is routed to Instance.name; migrating legacy
+            // properties are C15's business; value fidelity is C06's)
+            let mut out: Vec<(String, String)> = through_codecs(class, &props, "lookup").into_iter().filter(|(k, _)| k.contains("panic")).collect();
+            let expected_name = match specdb::lookup(class, prop) {
+                Lookup::Known(k) if prop != "Name" => match &k.ser {
+                    Ser::Serializes => Some(k.canonical.clone()),
+                    Ser::As { name, .. } => match specdb::lookup(class, name) {
+                        Lookup::Known(t) => Some(t.canonical.clone()),
+                        _ => None,
+                    },
+                    _ => None,
+                },
+                _ => None,
+            };
+            if let Some(name) = expected_name {
+                let mk = || WeakDom::new(InstanceBuilder::new("DataModel").with_child(InstanceBuilder::new(class.as_str()).with_name("subject").with_property(prop.as_str(), props[prop].clone())));
+                let dom = mk();
+                let roots = dom.root().children().to_vec();
+                let bin = crate::evidence::guarded(|| {
+                    let mut buf = Vec::new();
+                    rbx_binary::to_writer(&mut buf, &dom, &roots).ok()?;
+                    rbx_binary::from_reader(buf.as_slice()).ok()
+                });
+                if let Ok(Some(d2)) = bin {
+                    if first_instance(&d2).map(|i| !i.properties.contains_key(&name.as_str().into())).unwrap_or(true) {
+                        out.push((format!("lookup|binary-drops|{}.{}", class, prop), format!("{}.{} serializes according to the database but does not come back from rbx_binary (expected under {})", class, prop, name)));
+                    }
+                }
+                let xml = crate::evidence::guarded(|| {
+                    let mut buf = Vec::new();
+                    rbx_xml::to_writer_default(&mut buf, &dom, &roots).ok()?;
+                    rbx_xml::from_reader_default(buf.as_slice()).ok()
+                });
+                if let Ok(Some(d2)) = xml {
+                    if first_instance(&d2).map(|i| !i.properties.contains_key(&name.as_str().into())).unwrap_or(true) {
+                        out.push((format!("lookup|xml-drops|{}.{}", class, prop), format!("{}.{} serializes according to the database but does not come back from rbx_xml (expected under {})", class, prop, name)));
+                    }
+                }
+            }
+            out
         }
     }
 }
